@@ -174,7 +174,7 @@ def rt_cer(s1: int, s2: int, h1: Optional[str], f1: bool, m1: Optional[str], pk:
     if got[0] != "ok":
         return xs.fail(f"ContentEvaluationResult {obj} does not round-trip: {got[1]}", s1=s1, s2=s2, h1=h1, f1=f1, m1=m1, pk=pk, with_id=with_id)
     back = got[1]
-    same_packages = back.packages == obj.packages or (obj.packages is None and back.packages in (None, {}))
+    same_packages = back.packages == obj.packages and (back.packages is None) == (obj.packages is None)
     if back.hints != obj.hints or back.format_constraints != obj.format_constraints or back.requirement_constraints != obj.requirement_constraints or not same_packages or back.id != obj.id:
         return xs.fail(f"ContentEvaluationResult {obj} loads back as {back}", s1=s1, s2=s2, h1=h1, f1=f1, m1=m1, pk=pk, with_id=with_id)
     return True
@@ -197,6 +197,8 @@ def tree_cases():
     for text in resolve_harness.cases()[::4]:
         out.append(("resolve", text))
     out += [("ahb", "Muss [3] Soll [4] Kann [2]"), ("ahb", "Muss [3] Soll [4] Kann"), ("ahb", "M[1]S[2]K[3]m[1]"), ("cond", "[1] U ([2] O [3])[901]"), ("cond", "[2P0..3] X [UB2]")]
+    # the same package key with different repeatabilities (in one tree; in two trees loaded one after the other), repeated leaves
+    out += [("cond", "[2P0..3] O [4] U [2P]"), ("cond", "[10P1..2] X [10P2..5]"), ("cond", "[7] U [7] O [UB1] X [UB1]"), ("condpair", ("[5P]", "[5P0..1]")), ("condpair", ("[5P0..1] U [3]", "[5P] U [3]")), ("condpair", ("[1] U [2]", "[1] O [2]"))]
     _TREE_CASES.extend(out)
     return _TREE_CASES
 
@@ -211,6 +213,18 @@ def rt_tree(idx: int, s1: int, s2: int) -> bool:
         kind, text = tree_cases()[idx]
     evaluable = kind == "ahb"
     if not evaluable and (s1 != 0 or s2 != 0):
+        return True
+    if kind == "condpair":
+        # two trees dumped and loaded one after the other in one process: the second load must not see the first
+        for one in text:
+            tree = parse_condition_expression_to_tree(one)
+            got = roundtrip(TreeSchema(), tree, text_step=True)
+            with xs.nt():
+                ok = got[0] == "ok" and same(got[1], tree)
+            if not ok:
+                xs.reached()
+                return xs.fail(f"trees of {text} dumped and loaded one after the other: '{one}' loads back as {show(got[1]) if got[0] == 'ok' else got[1]}, original {show(tree)}", idx=idx, s1=s1, s2=s2)
+        xs.reached()
         return True
     s1, s2 = xs.pick(s1, 0, 3), xs.pick(s2, 0, 3)
     alpha = {"1": env.STATES[s1], "2": env.STATES[s2], "3": env.STATES[(s1 + s2) % 3], "4": env.STATES[s2]}
